@@ -454,6 +454,9 @@ class Interp:
                 self.unsupported("symbolic string loop without invariant", node)
 
     def wrap_elem(self, lst, z):
+        ek = self.world.elem_kinds.get(lst.kind)
+        if ek is not None:
+            return ek[0](self, z3.simplify(z))
         if lst.kind == "int":
             return mk_int(z)
         if lst.kind == "str":
@@ -461,6 +464,12 @@ class Interp:
         return SElem(z3.simplify(z), lst.kind)
 
     def unwrap_elem(self, lst, v, node=None):
+        ek = self.world.elem_kinds.get(lst.kind)
+        if ek is not None:
+            r = ek[1](self, v)
+            if r is None:
+                self.unsupported(f"storing {_tn(v)} into symbolic list of {lst.kind}", node)
+            return r
         if lst.kind == "int" and is_intlike(v):
             return zi(v)
         if lst.kind == "str" and is_strlike(v):
@@ -586,8 +595,11 @@ class Interp:
         return v
 
     def havoc_path(self, pathexpr, frame):
+        pathexpr, _, newkind = pathexpr.partition(":")
         v = self.eval(ast.parse(pathexpr, mode="eval").body, frame)
         if isinstance(v, PList):
+            if newkind:
+                v.kind = newkind
             kind = v.kind
             sort = {"int": z3.IntSort(), "str": z3.StringSort()}.get(kind, z3.IntSort())
             v.items = None
@@ -1080,8 +1092,20 @@ class Interp:
                 return mk_int(x * p)
             return mk_int(z3.If(p > 0, x / p, x))
         if t is ast.BitAnd:
+            # x & (2^m - 1) == x mod 2^m for every Python int x (infinite two's complement)
+            for p, q in ((a, b), (b, a)):
+                if isinstance(q, int) and not isinstance(q, bool) and q >= 0 and (q + 1) & q == 0:
+                    return mk_int(zi(p) % (q + 1))
             return mk_int(self.world.bitop("and", x, y, self))
         if t is ast.BitOr:
+            # x | y == x + y when the low j bits of x are zero and 0 <= y < 2^j (disjoint bits)
+            for p, q in ((x, y), (y, x)):
+                for j in range(0, 65):
+                    m = 2 ** j
+                    if not self.path.feasible(z3.Not(z3.And(q >= 0, q < m))):
+                        if not self.path.feasible(p % m != 0):
+                            return mk_int(p + q)
+                        break
             return mk_int(self.world.bitop("or", x, y, self))
         if t is ast.BitXor:
             return mk_int(self.world.bitop("xor", x, y, self))
